@@ -3,6 +3,7 @@
 #![allow(unused_imports)]
 
 use super::*;
+use crate::Direction;
 use crate::vspec::*;
 
 /// a Zobrist with an arbitrary raw value (the field is private to zobrist.rs)
@@ -123,3 +124,9 @@ fn c08_zobrist_algebra() {
 //  <= 3 symbolic toggles, and four concrete capture geometries with symbolic kinds -- and is intractable every time
 //  (18 min + out of memory / 15 min no answer / 30 min timeout): equality of two differently grouped XOR sums over the
 //  768-entry table is a parity problem for the SAT back end.  The Verus unit `pbv` is the only obligation on this function.)
+
+// (A bounded Kani companion for piece_board_value was attempted five ways -- one changed square with symbolic boards; <= 3
+//  symbolic toggles; four concrete capture geometries with symbolic kinds; a symbolic value table with a loop-free seam;
+//  288 fully concrete board pairs -- and is intractable every time (out of memory or timeout after 18-30 min): the 12 seam
+//  calls with Vec iteration cost ~1.8 M symex steps, and the XOR-sum equality over the 768-entry table is a parity problem
+//  for the SAT back end.  The Verus unit `pbv` is the only obligation on this function.)
